@@ -57,6 +57,7 @@ type writer struct {
 	froms  []string
 	nos    []string
 	gone   bool // the channel was discarded
+	hist   []epochPoint // epoch history as the replies imply it (history_epoch_test.go)
 }
 
 func newWriter(r doer, surface string, p probes, rng *rand.Rand, c string, co *coord, idBase int64, exact, solo bool) *writer {
@@ -230,6 +231,7 @@ func (w *writer) cutRows(to int64) {
 		}
 	}
 	w.props = keep
+	w.cutHist(to)
 }
 
 // step issues one call of a plain (non-exact) channel.
@@ -297,7 +299,7 @@ func (w *writer) plainStep() {
 		if w.typed && to < w.local {
 			to = w.local
 		}
-		res := w.r.do(kit.Ev("Truncate", "c", w.c, "to", to))
+		res := w.r.do(kit.Ev(w.truncCall(to), "c", w.c, "to", to))
 		if w.ok(res) && to < w.leo {
 			w.cutRows(to)
 			w.leo = to
@@ -440,7 +442,7 @@ func (w *writer) exactStep() {
 			want = w.leo - 1
 		}
 		to := w.cutFloor(want)
-		res := w.r.do(kit.Ev("Truncate", "c", w.c, "to", to))
+		res := w.r.do(kit.Ev(w.truncCall(to), "c", w.c, "to", to))
 		if w.ok(res) && to < w.leo {
 			w.cutRows(to)
 			w.leo = to
@@ -528,6 +530,9 @@ func (w *writer) exactStep() {
 }
 
 func (w *writer) step() {
+	if !w.typed && w.rng.Intn(6) == 0 && w.histStep() {
+		return
+	}
 	if w.exact {
 		w.exactStep()
 	} else {
@@ -540,7 +545,7 @@ func (w *writer) discard() {
 	res := w.r.do(kit.Ev("Discard", "c", w.c))
 	if w.ok(res) {
 		w.rows = map[int64]rec{}
-		w.props = nil
+		w.props, w.hist = nil, nil
 		w.leo, w.local, w.ckpt = 0, 0, 0
 		w.co.mu.Lock()
 		w.co.durable, w.co.hwMax = 0, 0
